@@ -52,6 +52,7 @@ func groups(tier string) []group {
 	gs = append(gs, group{"malformed/tokens", enumMalformedTokens})
 	gs = append(gs, group{"malformed/kinds", enumKinds})
 	gs = append(gs, group{"after-failure", enumAfterFailure})
+	gs = append(gs, group{"expansion", enumExpansion})
 	gs = append(gs, group{"cache/keys", enumCacheKeys})
 	gs = append(gs, group{"cache/keys-seeded", enumCacheKeysSeeded})
 	gs = append(gs, group{"cache/reqs", enumCacheReqs})
@@ -1078,6 +1079,60 @@ func enumAfterFailure(tier string, yield func(*scen) bool) {
 				sc := &scen{op: "after-failure", trigger: fmt.Sprintf("follow%d", fi), prog: p, copts: conv.Options{DisallowUnknownField: dis}, optName: fmt.Sprint("disallow=", dis),
 					doc: f.doc, want: f.want, prime: pr, ks: []int{0, 3}}
 				if !yield(sc) {
+					return
+				}
+			}
+		}
+	}
+}
+
+
+// enumExpansion: documents whose Thrift encoding is LONGER than the JSON text before a string / binary payload
+// begins (numbers of one or two characters become 8-byte integers), so that the payload starts when less room is
+// left in the output buffer than the text still to be read: k small i64 list elements followed by a string or a
+// base64 binary of n bytes, for every k and n of a grid, plus the two smallest shapes (a bare binary, one i64
+// field before the binary). Output capacities len(src)+0..8 and the pooled path of Do.
+func enumExpansion(tier string, yield func(*scen) bool) {
+	emit := func(name string, root *tbin.Shape, v *tbin.Val) bool {
+		prog := jt.NewProg("expansion/"+name, root)
+		j, ok := prog.Doc(v, root, jt.DocOpt{})
+		if !ok {
+			return true
+		}
+		return yield(&scen{op: "expansion", trigger: name, prog: prog, optName: "none", doc: jt.Render(j, jt.Spell{}), want: tbin.Bytes(v), ks: []int{0, 1, 2, 3, 4, 5, 6, 7, 8}})
+	}
+	bin := func(n int) *tbin.Val {
+		b := make([]byte, n)
+		for i := range b {
+			b[i] = byte(i*7 + 65)
+		}
+		return tbin.Bin(b)
+	}
+	bsh := &tbin.Shape{T: tbin.STRING, Binary: true}
+	if !emit("bare-binary", bsh, bin(3)) {
+		return
+	}
+	r2 := tbin.StructS(tbin.SF(1, tbin.Sc(tbin.I64)), tbin.SF(2, bsh))
+	if !emit("i64-then-binary", r2, tbin.Struct(tbin.F(1, tbin.I64v(1)), tbin.F(2, bin(3)))) {
+		return
+	}
+	for _, payload := range []string{"binary", "string"} {
+		psh := bsh
+		if payload == "string" {
+			psh = tbin.Sc(tbin.STRING)
+		}
+		root := tbin.StructS(tbin.SF(1, tbin.ListS(tbin.Sc(tbin.I64))), tbin.SF(2, psh))
+		for _, k := range []int{1, 2, 4, 8, 50, 400} {
+			for _, n := range []int{0, 3, 6, 30, 300, 1500, 6000} {
+				l := tbin.List(tbin.I64)
+				for i := 0; i < k; i++ {
+					l.L = append(l.L, tbin.I64v(int64(i%10)))
+				}
+				pv := bin(n)
+				if payload == "string" {
+					pv = tbin.Str(strings.Repeat("s", n))
+				}
+				if !emit(fmt.Sprintf("list-of-i64-then-%s", payload), root, tbin.Struct(tbin.F(1, l), tbin.F(2, pv))) {
 					return
 				}
 			}
